@@ -420,6 +420,28 @@ def _any(x, *a, **k):
 NP.any = _any
 
 
+def _gcd(a, b):
+    """np.gcd with one symbolic integer and one concrete integer: the largest divisor of the concrete one dividing both"""
+    if isinstance(b, SV) and not isinstance(a, SV):
+        a, b = b, a
+    if isinstance(a, SV):
+        if isinstance(b, SV):
+            raise Undecided("np.gcd of two symbolic integers")
+        d = abs(int(b))
+        if d == 0:
+            return abs(a)
+        divs = [g for g in range(1, d + 1) if d % g == 0]
+        from .sym import z3int
+        t = z3int(a)
+        out = z3.IntVal(1)
+        for g in divs[1:]:
+            out = z3.If(t % g == 0, z3.IntVal(g), out)
+        # one path per value of the gcd (a divisor of the concrete operand): keeps what follows linear
+        return _st.ENGINE.concretize_int(out, cap=len(divs) + 1)
+    return _np.gcd(a, b)
+NP.gcd = _gcd
+
+
 def _isclose1(a, b, rtol, atol):
     d = a - b
     return abs(d) <= atol + rtol * abs(b)
